@@ -190,12 +190,17 @@ def scenarios():
     add('t2/protect-pw', 'tt2', g, lambda w: w.tag.protect(b'123456'), 'protect')
     add('t2/authenticate', 'tt2', g, lambda w: w.tag.authenticate(b'123456'), 'authenticate')
     add('t2/dump', 'tt2', g, lambda w: w.tag.dump(), 'dump', lists=True)
+    add('t2/read', 'tt2', g, lambda w: w.tag.read(4), 'read')
+    add('t2/write', 'tt2', g, lambda w: w.tag.write(9, b'abcd'), 'write')
+    add('t2/transceive', 'tt2', g, lambda w: w.tag.transceive(b'\x30\x08', retries=3), 'transceive')
     big = t2_generic(npages=100, ndef=longmsg(300))
     add('t2/ndef-read-long', 'tt2', big, read_ndef, 'ndef')
     add('t2/ndef-write-long', 'tt2', big, write_op(longmsg(280)), 'NDEF.octets=', prep=prep_ndef)
     sec = t2_generic(npages=520, ndef=longmsg(1040), size_byte=255)
     add('t2/sector/ndef-read', 'tt2', sec, read_ndef, 'ndef', tier='sample')
     add('t2/sector/ndef-write', 'tt2', sec, write_op(longmsg(1030)), 'NDEF.octets=', prep=prep_ndef, tier='sample')
+    add('t2/sector/sector_select', 'tt2', sec, lambda w: w.tag.sector_select(1), 'sector_select')
+    add('t2/sector/sector_select-none', 'tt2', sec, lambda w: w.tag.sector_select(3), 'sector_select')
     # ---- Type 2 NXP products
     ul = t2_nxp(16, None, 'MifareUltralight')
     add('ul/ndef-read', 'tt2', ul, read_ndef, 'ndef')
@@ -242,7 +247,15 @@ def scenarios():
     add('topaz/format-blank-wipe', 'tt1', t1_world(False, 'Topaz', blank=True), lambda w: w.tag.format(wipe=0), 'format')
     add('topaz/protect', 'tt1', tz, lambda w: w.tag.protect(), 'protect')
     add('topaz/dump', 'tt1', tz, lambda w: w.tag.dump(), 'dump', lists=True)
+    add('topaz/read_id', 'tt1', tz, lambda w: w.tag.read_id(), 'read_id')
+    add('topaz/read_all', 'tt1', tz, lambda w: w.tag.read_all(), 'read_all')
+    add('topaz/read_byte', 'tt1', tz, lambda w: w.tag.read_byte(9), 'read_byte')
+    add('topaz/write_byte', 'tt1', tz, lambda w: w.tag.write_byte(40, 0x5A), 'write_byte')
+    add('topaz/write_byte-ne', 'tt1', tz, lambda w: w.tag.write_byte(41, 0x0F, erase=False), 'write_byte')
     t5 = t1_world(True, 'Topaz512')
+    add('topaz512/read_block', 'tt1', t5, lambda w: w.tag.read_block(20), 'read_block')
+    add('topaz512/write_block', 'tt1', t5, lambda w: w.tag.write_block(20, bytearray(b'12345678')), 'write_block', fail=(None,))
+    add('topaz512/read_segment', 'tt1', t5, lambda w: w.tag.read_segment(1), 'read_segment')
     add('topaz512/ndef-read', 'tt1', t5, read_ndef, 'ndef')
     add('topaz512/ndef-write', 'tt1', t5, write_op(longmsg(200)), 'NDEF.octets=', prep=prep_ndef)
     add('topaz512/format', 'tt1', t5, lambda w: w.tag.format(), 'format')
@@ -263,11 +276,23 @@ def scenarios():
     add('t3/format-wipe', 'tt3', t3_world(6), lambda w: w.tag.format(version=0x10, wipe=0), 'format')
     add('t3/dump', 'tt3', g3, lambda w: w.tag.dump(), 'dump', lists=True)
     add('t3/protect', 'tt3', g3, lambda w: w.tag.protect(), 'protect')
+    add('t3/polling', 'tt3', g3, lambda w: w.tag.polling(0x12FC, request_code=1), 'polling')
+    add('t3/read_from_ndef_service', 'tt3', g3, lambda w: w.tag.read_from_ndef_service(1, 2), 'read_from_ndef_service')
+    add('t3/write_to_ndef_service', 'tt3', g3, lambda w: w.tag.write_to_ndef_service(bytearray(range(32)), 3, 4),
+        'write_to_ndef_service', fail=(None,))
+    add('t3/read_without_encryption', 'tt3', g3,
+        lambda w: w.tag.read_without_encryption([nfc.tag.tt3.ServiceCode(0, 11)], [nfc.tag.tt3.BlockCode(0)]),
+        'read_without_encryption')
+    add('t3/dump_service', 'tt3', t3_world(5), lambda w: w.tag.dump_service(nfc.tag.tt3.ServiceCode(0, 11)), 'dump_service',
+        lists=True)
     fs = lambda: S.FelicaStandardWorld(S.t3_blocks(8, MSG2))  # noqa
     add('felica-std/is_present', 'tt3', fs, lambda w: w.tag.is_present, 'is_present')
     add('felica-std/ndef-read', 'tt3', fs, read_ndef, 'ndef')
     add('felica-std/ndef-write', 'tt3', fs, write_op(MSG), 'NDEF.octets=', prep=prep_ndef)
     add('felica-std/dump', 'tt3', fs, lambda w: w.tag.dump(), 'dump', lists=True)
+    add('felica-std/request_response', 'tt3', fs, lambda w: w.tag.request_response(), 'request_response')
+    add('felica-std/search_service_code', 'tt3', fs, lambda w: w.tag.search_service_code(1), 'search_service_code')
+    add('felica-std/request_system_code', 'tt3', fs, lambda w: w.tag.request_system_code(), 'request_system_code')
     add('felica-std/request_service', 'tt3', fs, lambda w: w.tag.request_service([nfc.tag.tt3.ServiceCode(0, 11)]),
         'request_service')
     # ---- FeliCa Lite / Lite-S
@@ -284,6 +309,9 @@ def scenarios():
         add(nm + '/authenticate-wrong', 'tt3', lite_world(ls, key=KEY), lambda w: w.tag.authenticate(bytes(16)),
             'authenticate')
         add(nm + '/dump', 'tt3', fw, lambda w: w.tag.dump(), 'dump', lists=True)
+        add(nm + '/read_without_mac', 'tt3', fw, lambda w: w.tag.read_without_mac(0, 1), 'read_without_mac')
+        add(nm + '/write_without_mac', 'tt3', fw, lambda w: w.tag.write_without_mac(bytearray(range(16)), 5), 'write_without_mac',
+            fail=(None,))
         ak = lite_world(ls, key=KEY)
         add(nm + '/auth/ndef-read', 'tt3', ak, read_ndef, 'ndef', prep=prep_auth)
         add(nm + '/auth/read_with_mac', 'tt3', ak, lambda w: w.tag.read_with_mac(1, 2), 'read_with_mac', prep=prep_auth)
@@ -292,6 +320,9 @@ def scenarios():
             prep_auth(w)
             prep_ndef(w)
         add(nm + '/auth/ndef-write', 'tt3', ak, write_op(MSG2), 'NDEF.octets=', prep=prep_auth_ndef)
+        if ls:
+            add(nm + '/auth/write_with_mac', 'tt3', ak, lambda w: w.tag.write_with_mac(bytearray(range(16)), 6), 'write_with_mac',
+                prep=prep_auth, fail=(None,))
     # ---- Type 4 over ISO-DEP
     for fwi, tier in ((8, 'quick'), (10, 'quick'), (11, 'quick'), (14, 'thorough')):
         w4 = t4_world(fwi)
@@ -302,6 +333,10 @@ def scenarios():
         add(nm + '/format-wipe', 'tt4', w4, lambda w: w.tag.format(wipe=0), 'format', tier=tier)
         add(nm + '/dump', 'tt4', w4, lambda w: w.tag.dump(), 'dump', lists=True, tier=tier)
         add(nm + '/protect', 'tt4', w4, lambda w: w.tag.protect(), 'protect', tier=tier)
+        add(nm + '/send_apdu', 'tt4', w4, lambda w: w.tag.send_apdu(0, 0xA4, 0x04, 0x00, bytes.fromhex('D2760000850101'), 256),
+            'send_apdu', tier=tier)
+        add(nm + '/transceive', 'tt4', w4, lambda w: w.tag.transceive(bytes.fromhex('00A4040007D276000085010100')),
+            'transceive', tier=tier)
     return L
 
 
@@ -331,6 +366,10 @@ TYPE_ERR = {'tt1': 'Type1TagCommandError', 'tt2': 'Type2TagCommandError', 'tt3':
 SKEL_CLASSES = {'TagCommandError', 'Type1TagCommandError', 'Type2TagCommandError', 'Type3TagCommandError',
                 'Type4TagCommandError', 'ValueError', 'UnicodeError', 'RuntimeError', 'NotImplementedError',
                 'AttributeError', 'TypeError', 'AssertionError', 'KeyError', 'IndexError'}
+
+
+# documented argument / state checks (ValueError: bad lengths, addresses, passwords; AttributeError: NDEF area not writeable)
+DOCUMENTED_EXC = {'ValueError', 'AttributeError'}
 
 
 class Sweep(object):
@@ -394,6 +433,8 @@ class Sweep(object):
             viol('raw-commerror', 'a raw nfc.clf.%s reaches the application' % o[1])
         elif o[0] == 'runaway':
             viol('unbounded', 'the operation does not stop repeating commands')
+        elif o[0] == 'exc' and o[1] in DOCUMENTED_EXC and o[:3] == base['obs'][:3]:
+            pass                   # the documented argument check of the fault-free run
         elif o[0] == 'exc':
             if kind in 'TXP' or not (o[1] == 'RuntimeError' and o[2].startswith('unexpected ')):
                 viol('unrelated-exception:' + o[1], '%s (%s) reaches the application' % (o[1], o[2]), site=o[3])
@@ -508,7 +549,7 @@ class Sweep(object):
         base = run(scn, None)
         o = base['obs']
         cid = class_id(base['world'].tag)
-        if o[0] not in ('val', 'tce'):
+        if o[0] not in ('val', 'tce') and not (o[0] == 'exc' and o[1] in DOCUMENTED_EXC):
             ck.violation(('unrelated-exception:%s@%s' % (o[1], o[3])) if o[0] == 'exc' else '%s:%s:%s:fault-free' % (o[0], cid, scn.method),
                          'without any fault the operation ends with %s' % (o,),
                          {'scenario': scn.name, 'class': cid, 'method': scn.method, 'plan': None, 'observed': list(map(str, o))})
@@ -518,7 +559,8 @@ class Sweep(object):
         for c in base['calls']:
             self.model_call(scn, c, {'scenario': scn.name, 'plan': None})
             n = 3 if scn.ttype in ('tt1', 'tt3') else 1 + c['retries']
-            if n < 2 and 'A' in c['attempts']:
+            passive = scn.ttype == 'tt2' and c['first'] > 0 and base['trace'][c['first'] - 1][0] == b'\xC2\xFF'
+            if n < 2 and 'A' in c['attempts'] and not passive:
                 ck.violation('no-retry:%s:%s' % (cid, scn.method), 'an answered command is sent with a budget of one attempt',
                              {'scenario': scn.name, 'command': c['cmd'].hex()})
         ck.case((scn.name, 'baseline'), False)
@@ -529,7 +571,11 @@ class Sweep(object):
         base = base or self.baseline(scn)
         bud = self.budget_table(scn, base)
         for pos in self.positions(scn, base, quick):
+            passive = scn.ttype == 'tt2' and pos > 0 and base['trace'][pos - 1][0] == b'\xC2\xFF'
             for kind in kinds:
+                if passive and kind == 'T':
+                    ck.count('skipped: timeout at SECTOR SELECT packet 2 (is the passive ack)')
+                    continue
                 for burst in bursts:
                     for mode in modes:
                         plan = (pos, kind, burst, mode)
@@ -658,7 +704,7 @@ def main():
             MSG = bytes([0xD1, 0x01, 0, 0x54, 0x02, 0x65, 0x6E])
             n1 = rng.randrange(1, 30)
             MSG = MSG[:2] + bytes([n1 + 3]) + MSG[3:] + bytes(rng.randrange(32, 127) for _ in range(n1))
-            n2 = rng.randrange(20, 44)
+            n2 = rng.randrange(12, 31)
             MSG2 = bytes([0xD1, 0x01, n2 + 3, 0x54, 0x02, 0x65, 0x6E]) + bytes(rng.randrange(32, 127) for _ in range(n2))
             for scn in scenarios():
                 if only and not scn.name.startswith(only):
